@@ -127,7 +127,7 @@ func runRealInformers(o checks.Opts) *report.Report {
 	rep := report.New("C12", "real-informers")
 	rep.Bounds["auxiliary"] = true
 	rep.Exhaustive = false
-	rep.Rule = "free-running, not exhaustive: the real dynamiccache.Cache over its real informer map against a minimal HTTP API server (LIST/WATCH of ConfigMaps), fixed histories: (1) owner A watches with a call-scoped context that is cancelled afterwards, owner B watches with a background context - a later object must still reach the registered controller handler and Get; (2) freeing A keeps the informer, freeing B as well closes its watch connection and makes Get fail with CacheNotStartedError; (3) watching again starts a working informer again"
+	rep.Rule = "free-running, not exhaustive: the real dynamiccache.Cache over its real informer map against a minimal HTTP API server (LIST/WATCH of ConfigMaps), fixed histories: (1) owner A watches with a call-scoped context that is cancelled afterwards, owner B watches with a background context - a later object must still reach the registered controller handler and Get; (2) freeing A keeps the informer, freeing B as well closes its watch connection and makes Get fail with CacheNotStartedError; (3) watching again starts a working informer again; (4) five rounds of freeing the last owner while a burst of events is being delivered to a handler that resolves the owners through the cache - Free and the calls after it must return"
 	bad := func(id, f string, a ...any) {
 		rep.AddViolation(report.Violation{Identity: id, Message: fmt.Sprintf(f, a...)})
 	}
@@ -157,6 +157,12 @@ func runRealInformers(o checks.Opts) *report.Report {
 	defer q.ShutDown()
 	if err := c.Source(h).Start(mgrCtx, q); err != nil {
 		rep.Fault = "source start: " + err.Error()
+		return rep
+	}
+	// a second handler, the one the ObjectTemplate controllers register: it resolves the owners
+	// watching the event's kind through the cache
+	if err := c.Source(dynamiccache.NewEnqueueWatchingObjects(c, &corev1.Secret{}, scheme)).Start(mgrCtx, q); err != nil {
+		rep.Fault = "second source start: " + err.Error()
 		return rep
 	}
 	if err := c.Start(mgrCtx); err != nil {
@@ -223,6 +229,52 @@ func runRealInformers(o checks.Opts) *report.Report {
 		_ = c.Free(context.Background(), a)
 	}
 	step()
+	// (4) the last owner is freed while events of the kind keep arriving at a handler that
+	// resolves the watching owners through the cache (what the ObjectTemplate controllers
+	// register): Free has to return, and so has every call after it
+	for round := 0; round < 5 && len(rep.Violations) == 0; round++ {
+		if err := c.Watch(context.Background(), a, &corev1.ConfigMap{}); err != nil {
+			bad("rewatch-failed", "Watch after Free (round %d): %v", round, err)
+			break
+		}
+		stopFeed := make(chan struct{})
+		fed := make(chan struct{})
+		go func() {
+			defer close(fed)
+			for i := 0; ; i++ {
+				select {
+				case <-stopFeed:
+					return
+				default:
+				}
+				api.add(fmt.Sprintf("burst-%d-%d", round, i))
+				time.Sleep(2 * time.Millisecond)
+			}
+		}()
+		time.Sleep(150 * time.Millisecond)
+		freed := make(chan error, 1)
+		go func() { freed <- c.Free(context.Background(), a) }()
+		select {
+		case err := <-freed:
+			if err != nil {
+				bad("free-failed", "Free under event load: %v", err)
+			}
+		case <-time.After(30 * time.Second):
+			bad("free-wedged-under-event-load", "Free of the last owner did not return within 30 s while events of the kind were being delivered to a handler that reads the owner set: the cache is locked up")
+		}
+		close(stopFeed)
+		<-fed
+		step()
+		if len(rep.Violations) == 0 {
+			done := make(chan struct{})
+			go func() { c.OwnersForGKV(cmGVK); close(done) }()
+			select {
+			case <-done:
+			case <-time.After(10 * time.Second):
+				bad("cache-wedged-after-free", "OwnersForGKV does not return after the last owner was freed under event load")
+			}
+		}
+	}
 	rep.Outcomes[fmt.Sprintf("violations=%d", len(rep.Violations))]++
 	rep.States, rep.Transitions = rep.Executions, rep.Executions
 	return rep
